@@ -15,6 +15,7 @@ DECIDED += "; R8 the backlog counts only live requests and never holds a request
 DECIDED += "; R9 accept parks on the listener's Notify only on the queue-empty edge of its own pop, and every enqueue of a request notifies"
 DECIDED += '; R10 every traversal of the hosts in Sim::step takes the due messages off the links (a SYN for a host whose software has returned is refused, not parked)'
 DECIDED += '; a partition destroys every message on the link, held ones included (shared C03-R3)'
+DECIDED += '; R11 a Config knob reaches the constructor parameter of its own name; the in-simulation and Sim-handle spellings of partition / repair reach the same operation (shared C03-R6); R4 also: ConnectGuard::drop releases on every path'
 ASSUMPTIONS = ["dropping a oneshot::Sender makes the receiver resolve with RecvError (tokio contract)"]
 
 DEQUE = "turmoil::host::ServerSocket::deque"
